@@ -219,6 +219,10 @@ type opReg struct {
 	// may follow an operand, then lets the parser continue (ParseRemainingExpression); via = "keywords": the word is
 	// entered into the exported token.Keywords table for the duration of the parse, so the lexer itself issues the type
 	word, via string
+	// builtin != 0: the operator is registered on this built-in token type (which lacks the role), the lexer issues it
+	builtin token.Type
+	// bare: the plugin's token interceptor builds the operator token by hand, without positions
+	bare bool
 }
 
 func (r opReg) text() string {
@@ -235,9 +239,16 @@ var opWords = []string{"in", "is", "mod", "isa", "divides", "instanceof", "xor",
 func buildWith(regs []opReg, m Mode) (*parser.Builder, error) {
 	lb := lexer.NewBuilder()
 	types := map[byte]token.Type{}
+	bare := map[byte]bool{}
 	for _, r := range regs {
+		if r.builtin != 0 {
+			continue
+		}
 		if _, ok := types[r.ch]; !ok {
 			types[r.ch] = lb.RegisterTokenType("op" + string(r.ch))
+		}
+		if r.bare {
+			bare[r.ch] = true
 		}
 	}
 	wordTypes := map[string]token.Type{}
@@ -249,12 +260,23 @@ func buildWith(regs []opReg, m Mode) (*parser.Builder, error) {
 	}
 	lb.UseTokenInterceptor(func(l *lexer.Lexer, next func() token.Token) token.Token {
 		if tt, ok := types[l.CurrentChar]; ok {
+			if bare[l.CurrentChar] {
+				// a token built by hand, type and text only (no positions): still that operator
+				tok := token.Token{Type: tt, Literal: string(l.CurrentChar)}
+				l.ReadChar()
+				return tok
+			}
 			tok := l.NewToken(tt, string(l.CurrentChar))
 			l.ReadChar()
 			return tok
 		}
 		return next()
 	})
+	for _, r := range regs {
+		if r.builtin != 0 {
+			types[r.ch] = r.builtin
+		}
+	}
 	pb := parser.NewBuilder(lb)
 	if m.Tolerant {
 		pb.WithTolerantMode(true)
@@ -477,6 +499,46 @@ func runC05PrePost(t *fw.T) {
 	}
 }
 
+// postfix operators registered on built-in tokens that have no postfix role (the README's factorial `!` on the NOT
+// token is the model): they bind like a call-level suffix against every neighbour, whatever the token's built-in roles
+// and levels are. One case = one token.
+var postfixHosts = []struct {
+	ch  byte
+	tt  token.Type
+	bin string // the built-in binary spelling that the registration takes over ("" = none)
+}{{'!', token.NOT, ""}, {'%', token.MODULO, "%"}, {'*', token.MULTIPLY, "*"}, {'>', token.GT, ">"}, {'<', token.LT, "<"}, {':', token.COLON, ""}}
+
+func runC05PostfixHosts(t *fw.T) {
+	h := postfixHosts[t.Index]
+	regs := []opReg{{ch: h.ch, role: "postfix", builtin: h.tt}}
+	pst := func(x *cnode) *cnode { return &cnode{kind: "cpost", op: string(h.ch), kids: []*cnode{x}} }
+	a, b := cid("a"), cid("b")
+	num := &cnode{kind: "num", name: "50"}
+	trees := []*cnode{pst(a), pst(num), pst(pst(a))}
+	for _, op := range nbBin {
+		if op == h.bin || (len(op) > 1 && op[0] == h.ch) || (h.ch == '!' && op == "!=") {
+			continue
+		}
+		bin := func(l, r *cnode) *cnode { return &cnode{kind: "bin", op: op, kids: []*cnode{l, r}} }
+		trees = append(trees, bin(a, pst(b)), bin(pst(a), b), pst(bin(a, b)), bin(num, pst(num)))
+	}
+	for _, op := range []string{"-", "!", "++"} {
+		if op[0] == h.ch {
+			continue
+		}
+		un := func(x *cnode) *cnode { return &cnode{kind: "un", op: op, kids: []*cnode{x}} }
+		trees = append(trees, un(pst(a)), pst(un(a)), un(pst(num)))
+	}
+	call := func(f *cnode, args ...*cnode) *cnode { return &cnode{kind: "call", kids: append([]*cnode{f}, args...)} }
+	dot := func(o *cnode) *cnode { return &cnode{kind: "dot", name: "p", kids: []*cnode{o}} }
+	trees = append(trees, pst(call(a, b)), call(pst(a), b), pst(dot(a)), dot(pst(a)), &cnode{kind: "asg", op: "=", kids: []*cnode{a, pst(b)}})
+	for _, tr := range trees {
+		checkCustomTree(t, regs, tr, "postfix-on-built-in-token", 0)
+		t.Distinct("host " + string(h.ch) + " " + tr.S())
+	}
+	t.Feature("postfix operator hosted by built-in token", string(h.ch))
+}
+
 func randCustomTree(r *rand.Rand, d int, regs []opReg) *cnode {
 	if d <= 0 {
 		if r.IntN(4) == 0 {
@@ -531,6 +593,9 @@ func runC05Random(t *fw.T) {
 					rg.word, rg.via = "", ""
 				}
 			}
+		}
+		if rg.word == "" && r.IntN(4) == 0 {
+			rg.bare = true
 		}
 		regs = append(regs, rg)
 		if role == "infix" && rg.level < minL {
@@ -830,6 +895,7 @@ func init() {
 			{Name: "levels-x-neighbours", Quick: 13, Thorough: 13, Exhaustive: true, Run: runC05Levels},
 			{Name: "level-pairs", Quick: 169, Thorough: 169, Exhaustive: true, Run: runC05Pairs},
 			{Name: "prefix-postfix", Quick: 1, Thorough: 1, Exhaustive: true, Run: runC05PrePost},
+			{Name: "postfix-on-built-in-tokens", Quick: len(postfixHosts), Thorough: len(postfixHosts), Exhaustive: true, Run: runC05PostfixHosts},
 			{Name: "random-mixed", Quick: 200000, Thorough: 1000000, Run: runC05Random},
 			{Name: "histories", Quick: 60000, Thorough: 400000, Run: runC05History},
 		},
